@@ -364,6 +364,10 @@ def positional(ctx):
                           unparse(def_stmts[0], 60), L_, unparse(late[0], 50) if late else ""))
 
 
+def in_block_(node, block):
+    return any(any(x is node for x in ast.walk(s_)) for s_ in block)
+
+
 def kw(ctx):
     sh = analyse(ctx)
     if sh.delegates and sh.class_loop is None:
@@ -387,6 +391,27 @@ def kw(ctx):
     t1 = c.test
     conj = t1.values if isinstance(t1, ast.BoolOp) and isinstance(t1.op, ast.And) else [t1]
     ctx.check(any(unparse(x) == "%s in arg_dict" % name_var for x in conj), c, "a keyword naming a bound parameter overrides/sets that parameter")
+    # the value of a keyword that names a parameter reaches arg_dict[name]: either the keyword loop OVERWRITES the entry,
+    # or the parameter walk reads kwargs[name] for every parameter not bound positionally (each alone is enough; a walk that
+    # sometimes prefers the default is only repaired by an overwriting keyword loop)
+    val_var = dotted(lp.target.elts[1])
+    over = [a for a in c.body if isinstance(a, ast.Assign) and unparse(a) == "arg_dict[%s] = %s" % (name_var, val_var)]
+    walk_ = _walk_loop(sh)
+    walk_ok = False
+    if walk_ is not None:
+        gk = cfg_of(f)
+        wname_ = dotted(walk_.target.elts[1])
+        reads = [a for a in nodes_of_type(walk_, ast.Assign) if unparse(a) == "arg_dict[%s] = kwargs[%s]" % (wname_, wname_)]
+        for a in reads:
+            from ..core import cond_facts
+            fc = [x for x in cond_facts([c_ for c_ in gk.conditions_at(gk.nodes_of(a)) if in_block_(c_[0], walk_.body)]) if "kwargs" in x[0] or "posonly" in x[0].lower() or "defaults" in x[0] or "len(args)" in x[0]]
+            extra = [x for x in fc if not (x == ("%s in kwargs" % wname_, True) or (x[0].startswith("%s in " % wname_) and "posonly" in x[0].lower() and not x[1]) or (x[0].startswith("%s not in " % wname_) and "posonly" in x[0].lower() and x[1]) or x[0].startswith("arg_position < len(args)"))]
+            walk_ok = walk_ok or not extra
+    if over or walk_ok:
+        ctx.ok(over[0] if over else c, "a keyword's value reaches its parameter (%s)" % ("keyword loop overwrites" + (" and the walk reads kwargs unconditionally" if walk_ok else "") if over else "the walk reads kwargs for every parameter not bound positionally"))
+    else:
+        ctx.bad(c, "the parameter walk does not always take a given keyword (it can prefer the default) and the keyword loop does not overwrite the entry either: calls that differ only in that keyword share one mapping",
+                key="joblib/func_inspect.py::filter_args::keyword value reaches its parameter")
     po_lists = [n for n, d in sh.list_domain.items() if d == {"POSITIONAL_ONLY"}] if sh.class_loop is not None else []
     walk = _walk_loop(sh)
     if sh.class_loop is not None and walk is not None and "POSITIONAL_ONLY" in sh.list_domain.get(_enum_list(walk), set()):
